@@ -132,6 +132,25 @@ def check_S2(ctx, facts):
             ctx.ob('C01.S2', m + '|kind', v == variant, site(body, t['cs']), '%s registers Mutation::%s' % (m, v) + ('' if v == variant else ' (expected %s)' % variant))
 
 
+def check_S2b(ctx, facts):
+    """the hand-over to the batch distributor cannot drop the mutation: an unbounded queue and a plain send"""
+    D = EC + 'replication::distributor::'
+    m = facts.body(D + 'TaskDistributor::mutation')
+    st = [b for b in facts.bodies.values() if b.kind == 'coroutine' and b.name.startswith(D + 'start_task_distributor_service::{closure#0}')]
+    if m is None or not st:
+        ctx.bad('C01.S2', 'distributor|queue', '', 'TaskDistributor::mutation / start_task_distributor_service not found (fail closed)')
+        return
+    lossy = lossy_sends(m)
+    sends = [cname(t) for _b, t in m.calls() if cname(t) and re.match(r'^(flume|crossbeam_channel|tokio::sync::mpsc)', cname(t)) and 'send' in last_seg(cname(t))]
+    bounded = [x for b in st for x in channel_ctor_bounded(facts, b)]
+    unb = [cname(t) for b in st for _b, t in b.calls() if cname(t) and last_seg(cname(t)) in ('unbounded', 'unbounded_channel')]
+    good = bool(sends) and not lossy and bool(unb) and not bounded
+    ctx.ob('C01.S2', 'distributor|queue-cannot-drop', good, site(m),
+           'mutations are queued with %s on an unbounded channel' % sorted(set(sends)) if good else
+           'the mutation queue can drop entries (lossy send %s / bounded channel %s): a write that missed direct replication is then only repaired by anti-entropy'
+           % (lossy, bounded))
+
+
 def check_S3(ctx, facts):
     P = EC + 'replication::poller::'
     rm = [b for b in facts.bodies.values() if b.kind == 'coroutine' and b.name == P + 'repair_members::{closure#0}']
@@ -244,6 +263,7 @@ def check(ctx):
     cg = CallGraph(facts)
     check_S1(ctx, facts, cg)
     check_S2(ctx, facts)
+    check_S2b(ctx, facts)
     check_S3(ctx, facts)
     check_S4(ctx, facts)
     c05.check_D1(ctx, facts, rule='C01.S5')
